@@ -139,7 +139,7 @@ def h_frame(ctx, n, shape, sym_len, verb=None, seq=None, amode="all"):
         legal = symx_not(sx_eq(f["addrs"][0 if shape != 2 else 2], "63:262142"))
         if shape == 0:
             legal = s_and(legal, symx_not(sx_eq(f["addrs"][0], f["addrs"][1])))
-        if shape != 3 and n >= 3:
+        if n >= 3:  # (shape 3, 'a -- c' with any c incl. the broadcast id, is the first legal shape of pkt_addrs too)
             # (a received packet may still be refused by the array sanity checks of pkt_lifespan: not demanded)
             ctx.check(symx_implies(legal, "cmd-ok" in out), "C02:valid-frame-is-accepted")
     return ",".join(out)
